@@ -687,16 +687,14 @@ Section RepeatedProofs.
       destruct (rpage_values V (rmaxdef V c) rs ds bs) as [|v r1] eqn:E.
       { rewrite Hsh in Rreps. discriminate. }
       cbn [cut_rows]. rewrite <- (app_nil_r r1), row_tail_app; cycle 1.
-      { rewrite Hsh in Rreps. simpl in Rreps. inversion Rreps as [[Hv Hr1]].
-        rewrite <- Hr1 in Hnz. now rewrite Forall_map in Hnz. }
+      { assert (Hr1 : map (rv_rep V) r1 = nz) by (rewrite Hsh in Rreps; simpl in Rreps; congruence).
+        rewrite <- Hr1 in Hnz. rewrite Forall_map in Hnz. exact Hnz. }
       { exact I. }
-      rewrite app_nil_r. destruct (length nz); simpl; rewrite <- E.
-      + rewrite entry_row_eq. unfold entry_row'. fold len. fold rs. fold ds.
-        rewrite (skipn_slice_base (rbase V c) (snd r) (cnt (rmaxdef V c) ds)). fold bs.
-        now rewrite rpage_values_enough by lia.
-      + rewrite entry_row_eq. unfold entry_row'. fold len. fold rs. fold ds.
-        rewrite (skipn_slice_base (rbase V c) (snd r) (cnt (rmaxdef V c) ds)). fold bs.
-        now rewrite rpage_values_enough by lia.
+      assert (Ecut : forall n, cut_rows V n (@nil rval) = []) by (intros [|n]; reflexivity).
+      rewrite Ecut, <- E. f_equal.
+      rewrite entry_row_eq. unfold entry_row'. fold len. fold rs. fold ds.
+      rewrite (skipn_slice_base (rbase V c) (snd r) (cnt (rmaxdef V c) ds)). fold bs.
+      now rewrite rpage_values_enough by lia.
   Qed.
 
   Lemma page_fold_ok c : rcol_ok c -> forall L acc, incl L (rrows V c) ->
@@ -706,11 +704,11 @@ Section RepeatedProofs.
     rcol_rows V acc' = rcol_rows V acc ++ map (rcol_entry_row V c) L.
   Proof.
     intros Hok. induction L as [|r L IH]; intros acc Hincl Hacc Hre Hcfg; cbn [fold_left map].
-    - rewrite app_nil_r. auto.
+    - rewrite app_nil_r. cbv zeta. auto.
     - destruct (page_step_ok c acc r Hok (Hincl r (or_introl eq_refl)) Hacc Hre Hcfg) as (S1 & S2 & S3 & S4).
       destruct (IH (page_step c acc r)) as (I1 & I2 & I3 & I4); auto.
       { intros x Hx. apply Hincl. now right. }
-      cbv zeta. repeat split; auto; try apply I3.
+      cbv zeta. split; [exact I1|]. split; [exact I2|]. split; [exact I3|].
       rewrite I4, S4, <- app_assoc. reflexivity.
   Qed.
 
@@ -724,8 +722,8 @@ Section RepeatedProofs.
       + constructor; simpl; auto.
       + reflexivity.
       + unfold same_cfg, page_init; simpl; auto.
-      + repeat split; auto; apply I3.
-    - repeat split; auto.
+      + split; [exact I1|]. split; [exact I2|]. split; [exact I3|]. exact I4.
+    - split; [exact Hok|]. split; [exact Ere|]. split; [|reflexivity]. unfold same_cfg. auto.
   Qed.
 
   (* the page read sequentially, cut at repetition level 0 *)
